@@ -354,6 +354,13 @@ impl<T: Send> Sender<T> {
 
 impl<T: Send> Clone for Sender<T> {
   fn clone(&self) -> Self {
+    // A handle that was closed no longer counts towards its side; neither does its clone.
+    if self.closed.load(Ordering::Acquire) {
+      return Sender {
+        shared: Arc::clone(&self.shared),
+        closed: AtomicBool::new(true),
+      };
+    }
     self.shared.add_sender();
     Sender {
       shared: Arc::clone(&self.shared),
@@ -489,6 +496,13 @@ impl<T: Send> AsyncSender<T> {
 
 impl<T: Send> Clone for AsyncSender<T> {
   fn clone(&self) -> Self {
+    // A handle that was closed no longer counts towards its side; neither does its clone.
+    if self.closed.load(Ordering::Acquire) {
+      return AsyncSender {
+        shared: Arc::clone(&self.shared),
+        closed: AtomicBool::new(true),
+      };
+    }
     self.shared.add_sender();
     AsyncSender {
       shared: Arc::clone(&self.shared),
